@@ -54,6 +54,7 @@ struct OpRec {
     size_t wire_mark = 0, wire_mark_done = 0, wlog_mark_done = 0; int conn_writes_at_init = 0; bool expect_reject = false; int expect_ec = 0; int lowest_free_id_before = -1, lowest_free_id_after = -1;
     size_t bytes_written_at_init = 0, bytes_written_after_init = 0; ref::Props connack_snapshot; bool had_connack = false;
     size_t op_seq_init = 0; uint64_t out_volume_before = 0, out_volume_after = 0; bool done_in_same_step = false; int step_init = 0;
+    std::vector<uint64_t> read_at_done;         // per connection: bytes the client had read when the handler ran
     int epoch = 0;                              // client incarnation (bumped by CANCEL / DISC / MOVE_ASSIGN)
     bool after_stop = false;
     int recv_seq = -1;
@@ -66,7 +67,7 @@ struct Scenario;   // scenarios.hpp
 
 struct Event {
     enum K { NONE, CONNECT_OK, WRITE_OK, WRITE_DEAD, WRITE_COMPLETE_LATE, READ_ALL, READ_ERR, READ_EOF, SHUTDOWN_OK, RELEASE, APP, TIME,
-             CONNECT_REFUSED, CONNECT_HANG, HS_RC, HS_MALFORMED, HS_SILENT, HS_CLOSE, WR_FAIL, WR_SHORT, TAIL_LOSS, WR_DELIVER_ONLY,
+             CONNECT_REFUSED, CONNECT_HANG, HS_RC, HS_MALFORMED, HS_SILENT, HS_CLOSE, WR_FAIL, WR_SHORT, TAIL_LOSS, WR_DELIVER_ONLY, WR_FAIL_LATE,
              WR_NOREPLY, WR_DELAY, WR_BCLOSE_BEFORE, WR_BCLOSE_AFTER, RD_CHUNK, RD_CUT, RD_LOSS, SHUTDOWN_HANG, INJECT, CONTINUE } k = NONE;
     int stream = -1; int a = 0; int e = 0; bool deviation = false;
     std::string str() const;
